@@ -152,6 +152,8 @@ impl<S> DominanceChecker for MonDom<'_, S> {
     fn clear_layer(&self, depth: usize) { self.inner.clear_layer(depth) }
     fn is_dominated_or_insert(&self, state: Arc<S>, depth: usize, value: isize) -> DominanceCheckResult {
         let dbg = if std::env::var("VH_TRACE").is_ok() { Some(format!("{:?}", std::any::type_name::<S>())) } else { None };
+        // the dominance store is shared by the workers: a yield point of the controlled scheduler (with the cache yields)
+        crate::sched::yield_point(crate::sched::Y_DOMINANCE);
         let r = self.inner.is_dominated_or_insert(state.clone(), depth, value);
         if dbg.is_some() { eprintln!("  dom query depth={depth} value={value} -> dominated={} thr={:?}  [state ptr {:p}]", r.dominated, r.threshold, Arc::as_ptr(&state)); }
         self.queries.fetch_add(1, AO::Relaxed);
